@@ -90,7 +90,9 @@ def run_r1(chk: Check, prog: Program) -> None:
             elif _reflective_clone(prog, k):
                 # the chain copies attributes through setattr / vars / copy: which ones is a question about values, decided
                 # by the interpreted clone() of R2, not by this table
-                chk.info("C13.R1", key, construct, "the clone() chain copies attributes reflectively: judged by C13.R2")
+                chk.ok("C13.R1", key, construct, "the clone() chain copies attributes reflectively (vars / setattr): whether this "
+                       "attribute arrives is decided by the interpreted clone of C13.R2, which compares the payloads",
+                       where=f"{prog.cls(k).module.relpath}:{k}.clone")
             else:
                 chk.fail("C13.R1", key, construct,
                          f"no clone() in the MRO of {k} assigns result.{a}: the clone gets the constructor default",
